@@ -1,6 +1,6 @@
 // ---- VFS unit: opaque flag words (routing only forwards them), opaque helper types
 #[derive(Clone, Copy)] pub struct OpenOptions { pub bits: u32 }
-#[derive(Clone, Copy)] pub struct SetattrValid { pub bits: u32 }
+// SetattrValid: generated bitflags model (vx/flagsmodel.py) added by the units
 pub mod virtio_fs { pub use super::RemovemappingOne; }
 #[verifier::external_body] pub struct FsCacheReq { _p: u8 }            // stands for `dyn FsCacheReqHandler`
 #[verifier::external_body] pub struct IoctlArg { _p: u8 }              // value of an IoctlData argument
